@@ -185,6 +185,9 @@ func c14Plans() []cmdPlan {
 		n = append(n, neighbour{"positional", "key", mk("define", "gene", "3..20")}, neighbour{"positional", "location", mk("define", "misc_feature", "3..21")},
 			neighbour{"positional", "location strand", mk("define", "misc_feature", "complement(3..20)")},
 			neighbour{"option", "-q note=a", with(b, "-q", "note=a")})
+		for _, pair := range [][2]string{{"join(3..8,12..20)", "order(3..8,12..20)"}, {"5", "4^5"}, {"complement(5)", "complement(4^5)"}, {"3..20", "<3..20"}, {"3..20", "3..>20"}, {"3.20", "3..20"}} {
+			plans = append(plans, cmdPlan{"define", mk("define", "misc_feature", pair[0]), []neighbour{{"positional", "location kind " + pair[0] + " vs " + pair[1], mk("define", "misc_feature", pair[1])}}, nil})
+		}
 		b2 := with(b, "-q", "note=a")
 		n = append(n, neighbour{"option", "-q value vs base -q", b2})
 		plans = append(plans, cmdPlan{"define", b, n, []string{"format", "qualifier"}})
@@ -211,14 +214,19 @@ func c14Plans() []cmdPlan {
 		b := file(inv{args: []string{"infix", "100", "host.gb"}, stdin: "guest.fasta"}, "host.gb", "phix_part.gb")
 		n := []neighbour{{"format", "-F fasta", with(b, "-F", "fasta")}, {"primary-input", "other guest", stdin(b, "guest2.fasta")},
 			{"option", "-e", with(b, "-e")}, {"positional", "locator", file(inv{args: []string{"infix", "200", "host.gb"}, stdin: "guest.fasta"}, "host.gb", "phix_part.gb")},
-			{"secondary-input", "host content changed", file(b, "host.gb", "pbat5.gb")}}
+			{"secondary-input", "host content changed", file(b, "host.gb", "pbat5.gb")},
+			{"secondary-input", "host annotation changed (same residues)", file(b, "host.gb", "phix_part-relabel.gb")}}
 		plans = append(plans, cmdPlan{"infix", b, n, []string{"format", "embed"}})
 	}
 	{
 		b := file(mk("insert", "100", "guest.fa"), "guest.fa", "guest.fasta")
 		n := fmtN(b)
 		n = append(n, neighbour{"option", "-e", with(b, "-e")}, neighbour{"positional", "locator", file(mk("insert", "CDS", "guest.fa"), "guest.fa", "guest.fasta")},
-			neighbour{"secondary-input", "guest content changed", file(b, "guest.fa", "guest2.fasta")}, neighbour{"positional", "guest literal", mk("insert", "100", "@acgtacgt")})
+			neighbour{"secondary-input", "guest content changed", file(b, "guest.fa", "guest2.fasta")}, neighbour{"positional", "guest literal", mk("insert", "100", "@acgtacgt")},
+			neighbour{"secondary-input", "guest split into two records (same residues)", file(b, "guest.fa", "guest-split.fasta")},
+			neighbour{"secondary-input", "guest as GenBank with a feature (same residues)", file(b, "guest.fa", "guest-annot.gb")})
+		bg := file(mk("insert", "100", "guest.fa"), "guest.fa", "guest-annot.gb")
+		plans = append(plans, cmdPlan{"insert", bg, []neighbour{{"secondary-input", "guest annotation changed (same residues)", file(bg, "guest.fa", "guest-annot2.gb")}}, nil})
 		plans = append(plans, cmdPlan{"insert", b, n, []string{"format", "embed"}})
 		b2 := mk("insert", "100", "@acgtacgt")
 		plans = append(plans, cmdPlan{"insert", b2, []neighbour{{"positional", "guest literal changed", mk("insert", "100", "@acgtacgc")}, {"option", "-e", with(b2, "-e")}}, []string{"format", "embed"}})
@@ -260,7 +268,8 @@ func c14Plans() []cmdPlan {
 			neighbour{"option", "-e", with(mk("search", "@gattnca"), "-e")}, neighbour{"option", "--no-complement", with(b, "--no-complement")})
 		plans = append(plans, cmdPlan{"search", b, n, []string{"format", "key", "qualifier", "exact", "no-complement"}})
 		b2 := file(mk("search", "q.fa"), "q.fa", "query1.fasta")
-		plans = append(plans, cmdPlan{"search", b2, []neighbour{{"secondary-input", "query file content changed", file(b2, "q.fa", "query2.fasta")}, {"option", "-e", with(b2, "-e")}}, nil})
+		plans = append(plans, cmdPlan{"search", b2, []neighbour{{"secondary-input", "query file content changed", file(b2, "q.fa", "query2.fasta")}, {"option", "-e", with(b2, "-e")},
+			{"secondary-input", "query file split into two records (same residues)", file(b2, "q.fa", "query-split.fasta")}}, nil})
 		b3 := mk("search", "@gattnca")
 		plans = append(plans, cmdPlan{"search", b3, []neighbour{{"option", "-e on ambiguous query", with(b3, "-e")}}, nil})
 	}
@@ -308,20 +317,29 @@ func (x *c14run) loadInputs() error {
 	}
 	x.inputs = map[string][]byte{
 		"phix.gb": phix, "phix_part.gb": part, "pbat5.gb": pbat, "phix.fasta": fa,
-		"multi.gb":      append(append(append([]byte{}, phix...), pbat...), part...),
-		"multi2.gb":     append(append(append([]byte{}, pbat...), part...), phix...),
-		"guest.fasta":   []byte(">guest one\nACGTACGTTTGACCA\n"),
-		"guest2.fasta":  []byte(">guest two\nACGTACGTTTGACCC\n"),
-		"query1.fasta":  []byte(">q\ngattaca\n"),
-		"query2.fasta":  []byte(">q\ngattacc\n"),
-		"feat1.tbl":     []byte("     misc_feature    10..40\n                     /note=\"first\"\n"),
-		"feat2.tbl":     []byte("     misc_feature    10..41\n                     /note=\"second\"\n"),
-		"bad-trunc.gb":  phix[:len(phix)*2/3],
-		"bad-field.gb":  bytes.Replace(phix, []byte("FEATURES             Location/Qualifiers\n"), []byte("FEATURES             Location/Qualifiers\n     gene            oops\n"), 1),
-		"bad-second.gb": append(append([]byte{}, part...), phix[:len(phix)/2]...),
-		"empty":         {},
+		"multi.gb":             append(append(append([]byte{}, phix...), pbat...), part...),
+		"multi2.gb":            append(append(append([]byte{}, pbat...), part...), phix...),
+		"guest.fasta":          []byte(">guest one\nACGTACGTTTGACCA\n"),
+		"guest2.fasta":         []byte(">guest two\nACGTACGTTTGACCC\n"),
+		"query1.fasta":         []byte(">q\ngattaca\n"),
+		"query-split.fasta":    []byte(">q\ngatt\n>q2\naca\n"),
+		"guest-split.fasta":    []byte(">guest one\nACGTACG\n>guest one b\nTTTGACCA\n"),
+		"guest-annot.gb":       []byte(c14GuestGB("first")),
+		"guest-annot2.gb":      []byte(c14GuestGB("second")),
+		"phix_part-relabel.gb": bytes.Replace(part, []byte("/gene=\""), []byte("/gene=\"x"), 1),
+		"query2.fasta":         []byte(">q\ngattacc\n"),
+		"feat1.tbl":            []byte("     misc_feature    10..40\n                     /note=\"first\"\n"),
+		"feat2.tbl":            []byte("     misc_feature    10..41\n                     /note=\"second\"\n"),
+		"bad-trunc.gb":         phix[:len(phix)*2/3],
+		"bad-field.gb":         bytes.Replace(phix, []byte("FEATURES             Location/Qualifiers\n"), []byte("FEATURES             Location/Qualifiers\n     gene            oops\n"), 1),
+		"bad-second.gb":        append(append([]byte{}, part...), phix[:len(phix)/2]...),
+		"empty":                {},
 	}
 	return nil
+}
+
+func c14GuestGB(note string) string {
+	return "LOCUS       GUEST                     15 bp    DNA     linear   SYN 01-JAN-2020\nDEFINITION  guest.\nACCESSION   G1\nVERSION     G1.1\nKEYWORDS    .\nSOURCE      s\n  ORGANISM  s\n            .\nFEATURES             Location/Qualifiers\n     misc_feature    2..9\n                     /note=\"" + note + "\"\nORIGIN      \n        1 acgtacgttt gacca\n//\n"
 }
 
 var helpOpt = regexp.MustCompile(`(?m)^  (?:-\w(?: <[^>]+>)?, )?--([a-z][a-z-]+)`)
